@@ -144,7 +144,7 @@ META["C01"] = dict(
     "configuration); distinct by hash of that tuple; non-trivial = the source parse was accepted so there is a configuration "
     "to round trip.",
     gates={
-        "mon.route.dump.json": g(300, 3000), "st.ordered_dict_given_for_dict_argument": g(15, 150),
+        "mon.route.dump.json": g(300, 3000), "st.ordered_dict_given_for_dict_argument": g(15, 150), "st.rejected_parse_between_accept_and_round_trip": g(100, 1000),
         "mon.route.dump.skip_default": g(300, 3000),
         "mon.route.dump.yaml": g(200, 2000),
         "mon.route.print_config": g(100, 1000),
@@ -414,7 +414,7 @@ META["C09"] = dict(
     gates={
         "mon.steps_compared": g(1200, 20000),
         "mon.steps_compared_with_pristine_process": g(1200, 20000),
-        "st.failing_steps": g(400, 5000), "st.history.print_config_with_exit0_option_then_parses": g(8, 80), "st.history.union_of_class_and_factory": g(6, 60),
+        "st.failing_steps": g(400, 5000), "st.history.failed_instantiate_then_instantiate": g(5, 50), "st.history.print_config_with_exit0_option_then_parses": g(8, 80), "st.history.union_of_class_and_factory": g(6, 60),
         "st.history.help_then_readers.default_config_file": g(20, 200),
         "st.op.parse_args": g(300, 3000), "st.op.parse_args-fail": g(150, 2000), "st.op.print_config": g(30, 300), "st.op.print_config-fail": g(12, 200),
         "st.op.help": g(30, 300), "st.op.parse_object": g(50, 500), "st.op.parse_string": g(30, 300), "st.op.parse_env": g(20, 300),
